@@ -57,7 +57,12 @@ def applyTok (p : Parsed) (t : String) : Option Parsed :=
   | none => none
   | some (k, v) =>
     let i := p.inp
-    if k = "lib" then some { p with inp := { i with hasLib := true } }
+    if k = "req" then
+      let (l, f) := match v with
+        | "nolib" => (false, true) | "nofeat" => (true, false) | "none" => (false, false)
+        | "onlylib" => (true, false) | "nolayers" => (false, true) | _ => (true, true)
+      some { p with inp := { i with reqLib := l, reqFeatures := f } }
+    else if k = "lib" then some { p with inp := { i with hasLib := true } }
     else if k = "hint" then some { p with inp := { i with robofab := { i.robofab with hint := some (i.robofab.hint.getD []) } } }
     else if k.startsWith "H." then
       (parseVal v).map fun x =>
@@ -157,7 +162,8 @@ def run (inp obs : List String) : Verdict :=
         else []
       let libOut := if implLib = "-" then [] else (implLib.splitOn ",").filterMap unhexS
       let robLeft := if fmt = 1 then libOut.filter Spec.robofabKeys.contains else []
-      let othersLost := (if i.hasLib then p.inp.libKeys else []).filter fun k => !libOut.contains k
+      let othersLost := (if i.hasLib && i.reqLib then p.inp.libKeys else []).filter fun k => !libOut.contains k
+      let libUnrequested := !i.reqLib && !libOut.isEmpty
       let spec : List String :=
         if implOk then
           (if mustFail then ["unknown-enum-or-attribute-accepted"] else []) ++
@@ -166,10 +172,14 @@ def run (inp obs : List String) : Verdict :=
           (if !hintFails.isEmpty then ["hint-data-not-moved:" ++ ",".intercalate (sortStrings hintFails)] else []) ++
           (if !robLeft.isEmpty then ["robofab-key-left-in-lib:" ++ ",".intercalate (sortStrings robLeft)] else []) ++
           (if !othersLost.isEmpty then ["lib-key-lost"] else []) ++
-          (let existing := p.inp.feaFile.getD ""
+          (if libUnrequested then ["lib-loaded-though-not-requested"] else []) ++
+          (let existing := if i.reqFeatures then p.inp.feaFile.getD "" else ""
+           -- converted feature text replaces the file's; when features were not requested the statement
+           -- does not say whether converted text is still delivered, so the empty text is admitted as well
            let cands : List String :=
              if fmt = 1 && i.hasLib then
-               (Spec.featureCandidates rf.classes rf.order rf.feats).map fun t => if t.isEmpty then existing else t
+               ((Spec.featureCandidates rf.classes rf.order rf.feats).map fun t => if t.isEmpty then existing else t) ++
+               (if i.reqFeatures then [] else [""])
              else [existing]
            if cands.any (fun t => hexOfStr t.toList == implFeat) then [] else ["feature-text"]) ++
           (if implFmt ≠ "3" then ["format-version-not-3"] else []) ++
@@ -184,6 +194,7 @@ def run (inp obs : List String) : Verdict :=
       let tags :=
         ["fmt" ++ toString fmt, if implOk then "ok" else "err"] ++
         (if unordered then ["unordered"] else []) ++
+        (if !i.reqLib then ["req-nolib"] else []) ++ (if !i.reqFeatures then ["req-nofeatures"] else []) ++
         (if i.hasLib then ["lib"] else []) ++ (if hintOn then ["hint"] else []) ++
         (if rf.feats.isSome then ["feats"] else []) ++
         (if mustFail then ["mustfail"] else []) ++
